@@ -146,11 +146,15 @@ def gen_p1_streams(rnd, n):
         parts = [rnd.choice(good) if rnd.random() < 0.5 else rnd.choice(noise) for _ in range(rnd.randrange(1, 8))]
         s = b"".join(parts); cuts = sorted(rnd.sample(range(len(s) + 1), min(len(s) + 1, rnd.randrange(0, 5))))
         yield [s[a:b] for a, b in zip([0] + cuts, cuts + [len(s)])]
-LONG = [[b"/" + b"x" * 3000] * 6, [b"/ABC5\r\n"] + [b"1-0:1.8.0(1)\r\n" * 200] * 8, [b"x" * 5000] * 4, [b"/ABC5\r\n" * 400] * 6]
+LONG = [[b"/" * 4096] * 6, [b"/ABC5\r\n"] + [b"dd/mm/yy;" * 450] * 6, [b"/" + b"x" * 3000] * 6, [b"/ABC5\r\n"] + [b"1-0:1.8.0(1)\r\n" * 200] * 8, [b"x" * 5000] * 4, [b"/ABC5\r\n" * 400] * 6]
 
 def replay_p1_read(p):
     obl = p.get("obligation", ""); clause = obl.split("#", 1)[1] if "#" in obl else ""
     key = None
+    if "C05 nothing is discarded" in clause:
+        b = clean_stream_check({"n": 120, "seed": 4})
+        if b["violations"]: return {"violated": True, "detail": b["violations"][0], "found_by": b["name"]}
+        return {"violated": False, "inconclusive": True, "detail": "bounded clean-stream search found nothing"}
     for c in ("C19", "C14", "hunt mode", "contiguous", "identification line", "left unconsumed", "tail of the stream", "start with '/'"):
         if c in clause: key = [c]; break
     rnd = random.Random(2)
